@@ -31,6 +31,24 @@ CLAIMS = {
         technique="path-sensitive typestate dataflow + dominating facts + field-effect rule over LLVM IR; AST for entry points"),
 }
 
+CLAIMS['C09'] = dict(
+    text="Decides, for every path of the code as written: (V1) every parameter-derived add/mul that reaches an allocation size is "
+         "proven non-wrapping from the dominating branch facts in every public vector entry point; (V2) the capacity and base are "
+         "committed only in the success region of realloc, which is handed the current block; (V3) at() returns only under i < count "
+         "and aborts only under count <= i; (V4) resize changes count / runs xtors only after re-checking sz <= cap, aborting "
+         "otherwise, and reserve grows only when sz > cap; (V7) the scratch slot used by sort/reverse is element index cap and the "
+         "setter allocates (request+1)*size. Constructor/destructor exactly-once counts and byte preservation beyond realloc's "
+         "contract are NOT decided.",
+    technique="no-wrap obligations by dominating-facts entailment over inlined LLVM IR; allocator-result discipline; structural agreement rules")
+CLAIMS['C10'] = dict(
+    text="Decides, for both character widths and every path of the code as written: (T1) every parameter-derived add/mul reaching an "
+         "allocation size, the element count or a branch condition (and every `size - pos` in an ordering test) is proven non-wrapping; "
+         "(T2) every function that resizes the underlying vector asks for n+1 elements and writes the NUL at element n through the "
+         "re-read base pointer on every path, and nothing else changes the count; (T3) positional operations touch the buffer only "
+         "under the documented bound (pos <= size for insert, pos < size otherwise) and abort on the other edge; (T4) str() never "
+         "returns NULL. Equality with a reference string and agreement of find/compare with the C library are NOT decided.",
+    technique="no-wrap obligations by dominating-facts entailment over inlined LLVM IR; dominance / post-dominance rules; both template instantiations")
+
 NA = {
     'C02': "inductive colour/black-height invariant over an unbounded pointer structure; needs shape/separation reasoning that no static analyser available here provides (DESIGN.md 4/C02)",
     'C07': "heap order and completeness are inductive invariants tying pointer shape to size arithmetic; not expressible as dataflow/typestate/effects (DESIGN.md 4/C07)",
